@@ -1,5 +1,6 @@
 import Acra.Model.iNET
 import Acra.Lemmas.ReviewC08Records
+import Acra.Props.C09.iNET
 namespace Acra.Props.C08
 open Acra.Py Acra.Model.iNET Acra.Gen.iNET
 
@@ -161,4 +162,31 @@ theorem iNET_items_stride (t : State) (buf : Bytes) (h : (unpack t buf).2 = .ok 
           omega
     · simp
     · simp
+/-! ### packet-level outcome list (review B4) -/
+
+/-- `iNET.unpack` returns, or raises `ValueError`, or `struct.error` — nothing else; and each kind is characterised
+    on the bytes (`wc` = low nibble of byte 0, the declared number of option words):
+    `ValueError` iff the buffer is shorter than 24 bytes, or — past the option words — the declarative package walk
+    reaches a complete package header declaring fewer than 12 bytes (`PkgsReject .value`);
+    `struct.error` iff the 24 bytes are there but not all `wc` option words, or the walk reaches, with bytes left, an
+    incomplete package header (`PkgsReject .struct`); a value otherwise (`Acra.Props.C09.iNET_accepts_iff_fits`). -/
+theorem iNET_unpack_outcomes (t : State) (buf : Bytes) :
+    ((unpack t buf).2 = .ok () ∨ (unpack t buf).2 = .error .value ∨ (unpack t buf).2 = .error .struct) ∧
+    ((unpack t buf).2 = .error .value ↔ buf.length < 24 ∨
+      (24 + 4 * Acra.Props.C09.declaredWc buf ≤ buf.length ∧
+        Acra.Lemmas.iNET.PkgsReject .value (buf.drop (24 + 4 * Acra.Props.C09.declaredWc buf)))) ∧
+    ((unpack t buf).2 = .error .struct ↔ 24 ≤ buf.length ∧ (buf.length < 24 + 4 * Acra.Props.C09.declaredWc buf ∨
+      Acra.Lemmas.iNET.PkgsReject .struct (buf.drop (24 + 4 * Acra.Props.C09.declaredWc buf)))) :=
+  ⟨(Acra.Props.C09.iNET_rejects_iff t buf).2.2, (Acra.Props.C09.iNET_rejects_iff t buf).1,
+   (Acra.Props.C09.iNET_rejects_iff t buf).2.1⟩
+
+/-- every outcome is reachable, each error kind by both of its causes: `wINET` accepted; 23 bytes → `ValueError`;
+    second package declaring 11 → `ValueError`; one of the two option words missing → `struct.error`;
+    second package header cut → `struct.error` -/
+example : (unpack fresh wINET).2 = .ok () := by rfl
+example : (unpack fresh (wINET.take 23)).2 = .error .value := by rfl
+example : (unpack fresh (wINET.set 57 11)).2 = .error .value := by rfl
+example : (unpack fresh (wINET.take 28)).2 = .error .struct := by rfl
+example : (unpack fresh (wINET.take 63)).2 = .error .struct := by rfl
+
 end Acra.Props.C08
